@@ -41,6 +41,9 @@ Inductive pxcase :=
 | CProxyLoose (pname : Z) (buf : nat) (icp : Z) (steps : list (list act)) (observed : list pobs)
     (* the same, for steps that group faults and cancellation with traffic (no waiting in between): judged by the
        property predicates alone *)
+| CProxyRed (pname : Z) (buf : nat) (icp : Z) (steps : list (list act)) (observed : list pobs)
+    (* a lock-step scenario used to re-check the reduction of the exploration: at every step the outcome set of the
+       reduced exploration must equal that of the full one *)
 | CProxyE2E (results : list (Z * Z))
     (* (expected, observed) outcome tokens of RPCs run through a real Proxy (+ Demux + Server) *)
 | CProxyFree (pname : Z) (buf : nat) (icp : Z) (names : list Z) (sent : list (Z * env)) (got : list (Z * env)) (drops : Z) (clean : bool).
@@ -318,6 +321,55 @@ Fixpoint agree_from (cf : cfg) (i : nat) (cands : list cand) (steps : list (list
   | _, _ => Some i
   end.
 
+(* ---- re-checking the reduction: full exploration (every enabled rule from every state; the actions of a group
+   performed at any moment; no rule taken alone) against the reduced one, outcome set against outcome set ---- *)
+Definition xsuccs_full (cf : cfg) (x : xstate) : list xstate :=
+  match snd x with
+  | [] => map (fun s => (s, [])) (all_succs cf (fst x))
+  | a :: rest => (canon (ext (fst x) a), rest) :: map (fun s => (s, a :: rest)) (all_succs cf (fst x))
+  end.
+
+Definition react_full (fuel : nat) (cf : cfg) (s : state) (acts : list act) : option (list state) :=
+  if existsb is_attach acts then
+    (* performed alone at a quiescent point: no rule is enabled before it *)
+    let s1 := fold_left ext acts (clear_log s) in
+    explore state_eqb (all_succs cf) fuel [s1] [s1] []
+  else
+    let x1 := (clear_log s, acts) in
+    option_map (map fst) (explore xeqb (xsuccs_full cf) fuel [x1] [x1] []).
+
+Definition same_set (a b : list state) : bool :=
+  forallb (fun x => mem state_eqb x b) a && forallb (fun x => mem state_eqb x a) b.
+
+(* walks the scenario like [agree_from]; at every step, for every candidate: 8 = the outcome sets differ,
+   9 = the full exploration ran out of fuel (not compared), 1 = the observation matches no outcome *)
+Fixpoint reduction_from (fuel : nat) (cf : cfg) (cands : list cand) (steps : list (list act)) (observed : list pobs) : list nat :=
+  match steps, observed with
+  | acts :: steps', o :: obs' =>
+      let per := map (fun c : cand =>
+                     match tr_acts (snd c) (length (clients (fst c))) acts with
+                     | None => ([1%nat], [])
+                     | Some (acts', m1) =>
+                         match react_all cf (fst c) acts', react_full fuel cf (fst c) acts' with
+                         | Some qs, Some fs =>
+                             (if same_set qs fs then [] else [8%nat],
+                              Explore.filter_map (fun s' => match obs_match m1 s' o with
+                                                            | Some m2 => Some (s', m2)
+                                                            | None => None end) qs)
+                         | _, _ => ([9%nat], [])
+                         end
+                     end) cands in
+      let bad := flat_map fst per in
+      match bad with
+      | _ :: _ => bad
+      | [] => match dedup cand_eqb (flat_map snd per) with
+              | [] => [1%nat]
+              | ns => reduction_from fuel cf ns steps' obs'
+              end
+      end
+  | _, _ => []
+  end.
+
 Definition cfg_of (pname : Z) (buf : nat) (icp : Z) : cfg := mkCfg pname buf (icp_of icp).
 
 Definition first_disagreement (c : pxcase) : option nat :=
@@ -507,12 +559,20 @@ Definition spec_no_loss (icp : Z -> Z -> option Z) (steps : list (list act)) (ob
   has_cancel steps || (missing_healthy icp steps observed =? 0).
 
 (* reason 5: dial on demand, exactly once: newConnection(n) is called only in a step by whose end an accepted
-   envelope routed to n was delivered, and only when every earlier record named n had been reported failed
+   envelope routed to n was delivered, and only when the newest earlier record named n had been reported failed
    (so never twice for one missing peer); and an accepted envelope from a healthy source whose routed name has
    no record at all when the step begins makes the proxy dial in that very step *)
 Definition disc_before (observed : list pobs) (r : nat) (t : nat) : bool :=
   existsb (fun p => match p with (k, o) => Nat.leb k t && existsb (fun d => snd d =? znat r) (o_disc o) end)
           (combine (seq 0 (length observed)) observed).
+
+(* the newest record named n among those satisfying f: the one that holds (or last held) the table entry - an
+   older record of the name lost the entry when the newer one was created (AddClient replaces; the proxy dials
+   only when there is no entry) *)
+Definition last_named (rs : list rinfo) (n : Z) (f : nat -> rinfo -> bool) : option nat :=
+  fold_left (fun acc k => match nth_error rs k with
+                          | Some r => if (ri_name r =? n) && f k r then Some k else acc
+                          | None => acc end) (seq 0 (length rs)) None.
 
 Definition spec_dial (icp : Z -> Z -> option Z) (steps : list (list act)) (observed : list pobs) : bool :=
   let rs := recs_of 0 steps observed in
@@ -523,7 +583,10 @@ Definition spec_dial (icp : Z -> Z -> option Z) (steps : list (list act)) (obser
                           existsb (fun d => match d with (td, j, e) =>
                                      Nat.leb td (ri_step ri)
                                      && match target_of icp (name_of rs j) e with Some n => n =? ri_name ri | None => false end end) ds
-                          && forallb (fun k' => if name_of rs k' =? ri_name ri then disc_before observed k' (ri_step ri) else true) (seq 0 k)
+                          && match last_named rs (ri_name ri) (fun k' r' => Nat.ltb k' k) with
+                             | Some k' => disc_before observed k' (ri_step ri)
+                             | None => true
+                             end
                         else true
                     | None => true end) (seq 0 (length rs))
   && (has_cancel steps ||
@@ -534,10 +597,10 @@ Definition spec_dial (icp : Z -> Z -> option Z) (steps : list (list act)) (obser
                    | Some n =>
                        (* some record named n exists by the end of the step whose failure had not been reported
                           before the step: the one the envelope went to, or the one just dialled for it *)
-                       existsb (fun k => match nth_error rs k with
-                                         | Some ri => (ri_name ri =? n) && Nat.leb (ri_step ri) td
-                                                      && negb (match td with O => false | S t0 => disc_before observed k t0 end)
-                                         | None => false end) (seq 0 (length rs))
+                       match last_named rs n (fun k r => Nat.leb (ri_step r) td) with
+                       | Some k => negb (match td with O => false | S t0 => disc_before observed k t0 end)
+                       | None => false
+                       end
                    | None => true
                    end
                  else true end) ds).
@@ -590,6 +653,8 @@ Definition check (c : pxcase) : list nat :=
       let f := icp_of icp in
       (if spec_delivered pname f steps observed && spec_loss_accounted buf f steps observed then [] else [2%nat])
       ++ (if wf_buf buf then [] else [4%nat])
+  | CProxyRed pname buf icp steps observed =>
+      dedup Nat.eqb (reduction_from 20000 (cfg_of pname buf icp) [(init, [])] steps observed)
   | CProxyE2E results =>
       if forallb (fun p => fst p =? snd p) results then [] else [6%nat]
   | CProxyFree pname buf icp names sent got drops clean =>
